@@ -26,13 +26,14 @@ DOMAIN_ASSUMPTIONS = [
     "mandatory arguments' destinations carry no default content; value mode 'optional' only for containers with clear-before-assign and content",
     "numeric text is canonical decimal inside the destination type's range; floating point values are dyadic rationals with short decimal expansions (exact comparison)",
     "free (multi-value) words do not start with '-'; after a multi-value run comes a key, --endvalues or the end of the line",
+    "a positional value is a bare word that does not start with '-' and never directly follows a multi-value argument or an argument used without its optional value (it would belong to that one)",
 ]
 
 PROPS["C01"] = dict(
     units=[dict(harness="argh", mode="spell", quick=dict(cases=25000, opts=dict(spellings=4)),
-                thorough=dict(cases=150000, shards=16, opts=dict(spellings=10)))],
+                thorough=dict(cases=60000, shards=16, opts=dict(spellings=10)))],
     rule="configuration = 1..6 arguments over 28 destination kinds (flag, int, long, unsigned, double, string, optional, 20 container "
-         "kinds) with short/long/both keys in 7 spec notations, generated initial contents, container options; abstract line = "
+         "kinds) with short/long/both keys in 7 spec notations - one argument may be the positional one ('-', receives bare words) -, generated initial contents, container options; abstract line = "
          "rule-obeying uses with generated values; per line the canonical spelling + k independently drawn spellings/orders "
          "(short/long key, unambiguous abbreviation, '=', glued value, flag groups optionally ending in a value key, reordering of "
          "distinct arguments, doubled list separators, --endvalues). Oracle: accepted, destinations == reference model, all "
@@ -50,14 +51,14 @@ MANIFEST_TEXT["C01"] = dict(
 
 PROPS["C03"] = dict(
     units=[dict(harness="argh", mode="valid", quick=dict(cases=25000, opts=dict(spellings=2)),
-                thorough=dict(cases=150000, shards=16, opts=dict(spellings=5)))],
+                thorough=dict(cases=80000, shards=16, opts=dict(spellings=5)))],
     rule="rule-rich configurations: as C01 plus mandatory flags, value checks (lower, upper, range, value list, min/max length, "
-         "pattern), formats, cardinalities (none/max/exact/range), requires/excludes, all-of/any-of/one-of/differ/disjoint, "
+         "pattern), formats (general and per value position), cardinalities (none/max/exact/range), requires/excludes, all-of/any-of/one-of/differ/disjoint, "
          "optional value mode, hidden and deprecated arguments and every usage-display flag present but unused; lines are built "
          "to obey every rule (requiring/excluding arguments placed in the documented order) and are confirmed by the model before "
          "use. Oracle: no exception, destinations == model. Non-trivial = a check/format/cardinality/constraint is active for a "
          "used argument and >= 2 arguments are used; distinct by hash of (configuration, argv).",
-    require_classes=dict(all=["attr.check", "attr.format", "attr.cardinality", "attr.arg_constraint", "attr.mandatory",
+    require_classes=dict(all=["attr.check", "attr.format", "attr.format_per_position", "attr.cardinality", "attr.arg_constraint", "attr.mandatory",
                               "attr.optional_value", "hc.all_of", "hc.any_of", "hc.one_of", "hc.differ", "hc.disjoint",
                               "flag.no_abbr", "evaluated_variants"]),
     assumptions=DOMAIN_ASSUMPTIONS,
@@ -71,11 +72,11 @@ MANIFEST_TEXT["C03"] = dict(
 MUTATIONS = ["unknown_short", "unknown_long", "ambiguous_or_unknown_prefix", "drop_mandatory", "missing_value", "duplicate_use",
              "bad_value", "check_violation", "excluded_after_excluder", "missing_required", "all_of_partial", "any_of_two",
              "one_of_none", "one_of_two", "differ_equal", "disjoint_common", "unique_duplicate", "fixed_overflow", "tuple_short",
-             "bitset_range", "deprecated_use", "too_few_values", "stray_value"]
+             "bitset_range", "deprecated_use", "too_few_values", "stray_value", "overlong_key"]
 PROPS["C02"] = dict(
-    units=[dict(harness="argh", mode="break", quick=dict(cases=40000), thorough=dict(cases=300000, shards=16))],
-    rule="a rule-obeying line of a rule-rich configuration (as C03) + exactly one rule-breaking mutation out of 23 kinds applied on "
-         "the abstract level (unknown short/long key, a stray value word without key, ambiguous or unknown prefix, dropped mandatory argument, missing value, use "
+    units=[dict(harness="argh", mode="break", quick=dict(cases=40000), thorough=dict(cases=150000, shards=16))],
+    rule="a rule-obeying line of a rule-rich configuration (as C03) + exactly one rule-breaking mutation out of 24 kinds applied on "
+         "the abstract level (unknown short/long key, a defined long key with characters appended, a stray value word without key, ambiguous or unknown prefix, dropped mandatory argument, missing value, use "
          "beyond the cardinality, too few values, non-convertible value, violation of each check type incl. list elements, excluded "
          "argument after its excluder, missing required argument, all-of partial, any-of two, one-of none/two, differ equal, "
          "disjoint common element, duplicate with unique=error, array/tuple overflow, short tuple, bitset position out of range, "
@@ -95,7 +96,7 @@ MANIFEST_TEXT["C02"] = dict(
 CONTAINER_KINDS = [k for k in KINDS if k not in ("flag", "int", "long", "uint", "double", "string", "opt_int", "opt_string")]
 PROPS["C06"] = dict(
     units=[dict(harness="argh", mode="fold", quick=dict(cases=30000, opts=dict(cuts=3)),
-                thorough=dict(cases=250000, shards=16, opts=dict(cuts=5)))],
+                thorough=dict(cases=120000, shards=16, opts=dict(cuts=5)))],
     rule="one container destination of each of 20 kinds (vector<int/string>, list, deque, set, multiset, unordered_set, "
          "forward_list, stack, queue, priority_queue, array, C array, tuple, bitset, vector<bool>, DynamicBitset, map, multimap, "
          "unordered_map) x option set legal for the kind (separator, clear-before-assign, sort, unique drop/error, multi-value, "
@@ -124,7 +125,7 @@ PROPS["C07"] = dict(
     units=[
         dict(harness="split", mode="roundtrip", kind="enum", quick=dict(), thorough=dict()),
         dict(harness="split", mode="roundtrip", quick=dict(cases=40000), thorough=dict(cases=400000, shards=8)),
-        dict(harness="argh", mode="sources", quick=dict(cases=15000), thorough=dict(cases=120000, shards=16)),
+        dict(harness="argh", mode="sources", quick=dict(cases=15000), thorough=dict(cases=60000, shards=16)),
     ],
     rule="(a) word lists of 1..8 non-empty words over printable ASCII incl. blanks, both quote characters and backslashes, each "
          "word written as 1..3 segments in one of 4 quoting styles (backslash before specials, backslash before every character, "
@@ -153,7 +154,7 @@ MANIFEST_TEXT["C07"] = dict(
     technique="property-based testing (rapidcheck): round-trip + differential (source equivalence) + reference model, bounded exhaustive enumeration for the splitter, under ASan/UBSan")
 
 PROPS["C08"] = dict(
-    units=[dict(harness="argh", mode="groups", quick=dict(cases=30000), thorough=dict(cases=250000, shards=16))],
+    units=[dict(harness="argh", mode="groups", quick=dict(cases=30000), thorough=dict(cases=100000, shards=16))],
     rule="rule-rich configuration (as C03) x partition of its arguments over 1..4 named member handlers of the Groups singleton "
          "(arguments linked by a constraint stay in one member) x a rule-obeying line or a line with one rule-breaking mutation "
          "(22 kinds, as C02), spelled with the full spelling function. Oracle (differential): Groups::evalArguments and "
@@ -241,7 +242,7 @@ MANIFEST_TEXT["C04"] = dict(
     technique="coverage-guided fuzzing (libFuzzer, structure-aware decoding) + property-based mutation testing (rapidcheck), sanitizers as monitors")
 
 PROPS["C18"] = dict(
-    units=[dict(harness="argh", mode="usage", quick=dict(cases=25000), thorough=dict(cases=200000, shards=16))],
+    units=[dict(harness="argh", mode="usage", quick=dict(cases=25000), thorough=dict(cases=100000, shards=16))],
     rule="1..10 arguments of all destination kinds with generated attributes (mandatory/optional, hidden, deprecated, replaced-by, "
          "short/long/both keys, long keys of 36..46 characters around the same-line threshold of 40, descriptions of 1..60 words "
          "each carrying a unique marker word, print-default on/off/unset, checks, constraints) x usage settings (hfUsageHidden, "
@@ -282,7 +283,7 @@ PROPS["C09"] = dict(
          "the same work done alone in the same process; ThreadSanitizer reports nothing (TSan build) - the same cases also run "
          "in an uninstrumented build for the value oracle at full speed. Non-trivial = >= 2 threads split lists and (they use "
          "different separators or >= 2 threads register constraints); distinct by case hash.",
-    require_classes=dict(all=["mt.different_list_separators", "mt.concurrent_constraints", "mt.eight_or_more_threads", "mt.broken_line"]),
+    require_classes=dict(all=["mt.different_list_separators", "mt.concurrent_constraints", "mt.eight_or_more_threads", "mt.broken_line", "mt.usage_printed"]),
     assumptions=DOMAIN_ASSUMPTIONS + ["handlers share no destination variables; only the argv source is used (files and environment are process-global)",
                                       "schedules are sampled, not enumerated; ThreadSanitizer generalises over races whose two accesses both execute in a run"],
     wall_cap=dict(quick=600, thorough=3600),
